@@ -25,6 +25,12 @@ def plan(tier):
                 sh.append(('full', gi, n, ('dev', sprops.V4, -1.0, 1 if N > 12 else 2, 1500 if tier == 'quick' else 10000), dict(unary_penalty=0.5, nbest=nbest), J))
             if tier == 'thorough' and not real:
                 sh.append(('native', gi, 4, ('dev', sprops.V4, -1.0, 2 if T == 1 else 1, 60000), dict(unary_penalty=0.5, nbest=nbest), J))
+        for base in ('g1', 'g2'):
+            for n in (2, 3):
+                N = S.n_entries(n, T)
+                d = (2 if N <= 16 else 1) + (1 if tier == 'thorough' and N <= 30 else 0)
+                for nbest in (1, 5):
+                    sh.append(('native', gi, n, ('dev', sprops.V4, base, d, 6000 if tier == 'quick' else 60000), dict(unary_penalty=0.5, nbest=nbest), J))
         # beam settings: leaves must be admitted tags
         if T > 1:
             for cfgb in (dict(pruning_size=1), dict(use_beta=True, beta=0.01), dict(pruning_size=2, use_beta=True, beta=0.2)):
